@@ -215,6 +215,10 @@ class Pool:
             self.v = rng.sample(range(0, 32), nv or rng.randint(2, 4))
             if 0 not in self.g:
                 self.g[-1] = 0
+            # x5 and d5/v5/q5 are different registers with the same number: make such pairs frequent
+            shared = [n for n in self.g if n not in self.v]
+            if shared:
+                self.v[0] = shared[len(self.v) % len(shared)]
 
     def reg(self, rng, cls, wide=False, cls_pat=None):
         if self.isa == "x86":
